@@ -69,6 +69,9 @@ pub fn local_fns(inner: Inner, no_std: bool) -> String {
     pub fn s_nan0(x: {n}) -> {n} {{ if x.is_nan() {{ 0.0 }} else {{ x }} }}
     pub fn s_neg(x: {n}) -> {n} {{ -x }}
     pub fn s_add1(x: {n}) -> {n} {{ x + 1.0 }}
+    pub fn s_recip(x: {n}) -> {n} {{ 1.0 / x }}
+    pub fn s_quad(x: {n}) -> {n} {{ x * 4.0 }}
+    pub fn s_big2inf(x: {n}) -> {n} {{ if x > 1e30 {{ {n}::INFINITY }} else if x < -1e30 {{ {n}::NEG_INFINITY }} else {{ x }} }}
     pub fn s_abs(x: {n}) -> {n} {{ if x < 0.0 {{ -x }} else {{ x }} }}
     pub fn p_not50(x: &{n}) -> bool {{ *x != 50.0 }}
     pub const fn c_p_not50(x: &{n}) -> bool {{ *x != 50.0 }}
@@ -228,14 +231,20 @@ pub fn const_prelude(inner: Inner) -> String {
         _ => return String::new(),
     };
     let fl = inner.is_float();
-    format!(
+    let mut o = format!(
         "pub const KA: {bty} = {};\npub const KB: {bty} = {};\npub const ONE: {bty} = {};\npub mod k {{ pub const KM: {bty} = {}; }}\npub const fn kmax() -> {bty} {{ {} }}\n",
         if fl { "5.0" } else { "5" },
         if fl { "100.0" } else { "100" },
         if fl { "1.0" } else { "1" },
         if fl { "3.0" } else { "3" },
         if fl { "42.0" } else { "42" }
-    )
+    );
+    // the same capture-prone names as in the run-time corpus (decl.rs)
+    let (v10, v100, v90) = if fl { ("10.0", "100.0", "90.0") } else { ("10", "100", "90") };
+    o.push_str(&format!(
+        "pub const MIN: {bty} = {v10};\npub const MAX: {bty} = {v100};\npub const LOWER: {bty} = {v10};\npub const UPPER: {bty} = {v100};\npub const RANGE: {bty} = {v90};\npub const fn lower() -> {bty} {{ {v10} }}\npub const fn upper() -> {bty} {{ {v100} }}\n"
+    ));
+    o
 }
 
 /// raw unit: attribute text and struct text given literally (for faults the Decl AST cannot express)
@@ -257,6 +266,40 @@ fn feats(f: &[&str]) -> Vec<String> {
 }
 
 const ALL: &[&str] = &["serde", "regex", "arbitrary", "new_unchecked"];
+
+// ------------------------------------------------------------------------------------ C11 premise
+
+/// C11 speaks about every obtainable value: its premise is that a value, once obtained, cannot be changed in
+/// place by safe client code. The in-place mutation attacks of the C05 catalogue (with their controls), over
+/// the fixed bases.
+pub fn c11_gate_units() -> Vec<Unit> {
+    const MUTATIONS: &[&str] = &[
+        "field-write",
+        "destructure-ref-mut",
+        "assign-through-deref",
+        "deref-mut-call",
+        "mem-replace-through-deref",
+        "as-mut",
+        "borrow-mut",
+        "iter-mut",
+        "for-in-mut-ref",
+        "push-through-deref",
+        "get-mut-through-deref",
+    ];
+    let mut out: Vec<Unit> = c05_units(0, false)
+        .into_iter()
+        .filter(|u| {
+            let mut parts = u.class.split(':');
+            let kind = parts.next().unwrap_or("");
+            let name = parts.next().unwrap_or("");
+            (kind == "attack" || kind == "control") && MUTATIONS.contains(&name) && !u.class.contains("random")
+        })
+        .collect();
+    for (i, u) in out.iter_mut().enumerate() {
+        u.id = format!("m{:04}", i + 1);
+    }
+    out
+}
 
 // ------------------------------------------------------------------------------------ C12 derive gate
 
